@@ -78,7 +78,8 @@ def run(ctx):
         ("MC_MetaConfig.cfg", dict(workers=2, timeout=900)),
         ("MC_MetaConfig_impl.cfg", dict(workers=2, timeout=900)),
         ("MC_MetaConfig_mutant_localbase.cfg", dict(workers=1, expect_violation=True, timeout=600)),
-        ("MC_MetaConfig_mutant_offset.cfg", dict(workers=1, expect_violation=True, timeout=600))])
+        ("MC_MetaConfig_mutant_offset.cfg", dict(workers=1, expect_violation=True, timeout=600))]
+        + ([("MC_MetaConfig_b13.cfg", dict(workers=2, timeout=900))] if ctx.tier != "quick" else []))
     groups = [(fs, (0,)) for fs in QUICK_BUILDS]
     omitted = []
     if ctx.tier != "quick":
@@ -116,7 +117,7 @@ def run(ctx):
         if ctx.tier != "quick" and not fs:
             def shift_table(lines):    # the mark-bit table of every space moved into its neighbour
                 import json as _j
-                r = _j.loads(lines[0])
+                r = _j.loads(next(x for x in lines if '"plan":"Immix"' in x))
                 for s_ in r["spaces"]:
                     for x in s_["l"]:
                         if x["n"] == "VMLocalMarkBitSpec":
